@@ -132,7 +132,7 @@ func NewParser(srcPath, dstPath string) (*Parser, error) {
 		}
 	}
 	return &Parser{
-		srcPath: fileSet.Position(fileSrc.Pos()).Filename,
+		srcPath: fileSet.PositionFor(fileSrc.Pos(), false).Filename,
 		fset:    fileSet,
 		file:    fileSrc,
 		pkg:     pkgs[0],
